@@ -160,9 +160,11 @@ public:
     QXmppTask<QHash<TL, MH>> keys(const QString &, QXmpp::TrustLevels trustLevels = {}) override
     {
         QHash<TL, MH> h;
-        vp_c18_limit(int(trustLevels) == (LvManDistrusted | LvAuthenticated));
-        h.s[0].b = levelBlk(LvManDistrusted);
-        h.s[1].b = levelBlk(LvAuthenticated);
+        // levels with a slot in the model: ManuallyDistrusted, Authenticated (any non-empty subset of them may be requested)
+        int req = int(trustLevels);
+        vp_c18_limit(req != 0 && (req & ~(LvManDistrusted | LvAuthenticated)) == 0);
+        if (req & LvManDistrusted) h.s[0].b = levelBlk(LvManDistrusted);
+        if (req & LvAuthenticated) h.s[1].b = levelBlk(LvAuthenticated);
         return makeReadyTask(std::move(h));
     }
     QXmppTask<void> addKeysForPostponedTrustDecisions(const QString &, const QByteArray &senderKeyId, const QList<QXmppTrustMessageKeyOwner> &keyOwners) override
